@@ -755,13 +755,31 @@ Proof. intros Hc Hf Hn. destruct (strict_node k es n nd Hc Hf Hn) as [_ _ _ G4 G
 Lemma restore_merge_nil_id c : sorted c -> restore_merge [] c = c.
 Proof. intros H. exact (restore_onto_id [] c H). Qed.
 
+(* the newest snapshot of a store *)
+Lemma newest_in l : forall s, newest l = Some s -> In s l.
+Proof. induction l as [|x r IH]; intros s H; [discriminate|]. cbn [newest] in H. destruct (newest r) as [t|] eqn:E.
+  - destruct (Nat.ltb (fst t) (fst x)); injection H as <-; [now left|right; now apply IH].
+  - injection H as <-. now left. Qed.
+Lemma newest_none l : newest l = None -> l = [].
+Proof. destruct l as [|x r]; [reflexivity|]. cbn [newest]. destruct (newest r) as [t|]; [destruct (Nat.ltb (fst t) (fst x))|]; discriminate. Qed.
+Lemma newest_max l : forall s t, newest l = Some s -> In t l -> (fst t <= fst s)%nat.
+Proof. induction l as [|x r IH]; intros s t H Hin; [destruct Hin|]. cbn [newest] in H. destruct (newest r) as [u|] eqn:E.
+  - destruct (Nat.ltb_spec (fst u) (fst x)) as [Hlt|Hge]; injection H as <-; destruct Hin as [->|Hin]; try lia.
+    + specialize (IH u t eq_refl Hin). lia.
+    + exact (IH u t eq_refl Hin).
+  - injection H as <-. apply newest_none in E. subst r. destruct Hin as [->|[]]. lia. Qed.
+Lemma newest_label l : fold_right Nat.max 0%nat (map fst l) = match newest l with Some s => fst s | None => 0%nat end.
+Proof. induction l as [|x r IH]; [reflexivity|]. cbn [map fold_right newest]. rewrite IH. destruct (newest r) as [t|].
+  - destruct (Nat.ltb_spec (fst t) (fst x)); lia.
+  - lia. Qed.
+
 Lemma offline_l k es n nd : forallb clean_ev es = true -> run_ok ev_atomic (init k) es = true ->
   nth_error (nodes (run (init k) es)) n = Some nd ->
-  offline nd = match rev (snaps nd) with [] => [] | s :: _ => replay (firstn (fst s) (log (run (init k) es))) end.
+  offline nd = match newest (snaps nd) with None => [] | Some s => replay (firstn (fst s) (log (run (init k) es))) end.
 Proof.
   intros Hc Hf Hn. destruct (strict_node k es n nd Hc Hf Hn) as [_ _ _ _ _ _ G7].
-  unfold offline. destruct (rev (snaps nd)) as [|s r] eqn:E; auto.
-  assert (Hin : In s (snaps nd)) by (apply in_rev; rewrite E; now left).
+  unfold offline. destruct (newest (snaps nd)) as [s|] eqn:E; auto.
+  pose proof (newest_in _ _ E) as Hin.
   rewrite Forall_forall in G7. destruct (G7 s Hin) as [_ S2].
   rewrite restore_merge_nil_id; auto. rewrite S2. apply sorted_replay.
 Qed.
